@@ -76,7 +76,7 @@ func genScript(en *Env, nkeys int, vs *h.Values, n int, batches bool) []scriptSt
 		case c < 94:
 			sc = append(sc, scriptStep{"Restart", 0, 0, 0})
 		case c < 96:
-			sc = append(sc, scriptStep{"Iterate", 0, 0, r.Intn(4)})
+			sc = append(sc, scriptStep{"Iterate", 0, 0, r.Intn(256)})
 		case c < 99:
 			// an iterator that stays open across an overwrite and a delete of keys it has not yielded yet
 			sc = append(sc, scriptStep{"IterMut", k, val(), r.Intn(2)})
@@ -98,12 +98,46 @@ func iterate(e *h.Eng, a int) {
 			it := e.DB.NewIterator(opts)
 			defer it.Close()
 			seq := []int{}
-			for it.Rewind(); it.Valid(); it.Next() {
+			take := func() error {
 				v, err := it.Value()
 				if err != nil {
 					return err
 				}
 				seq = append(seq, e.U.Rank(it.Key()), e.V.ID(v))
+				return nil
+			}
+			it.Rewind()
+			if a&4 == 4 {
+				// a few steps, then Rewind: the scan that follows starts over from the first key
+				for n := 0; it.Valid() && n < 3; n++ {
+					if err := take(); err != nil {
+						return err
+					}
+					it.Next()
+				}
+				it.Rewind()
+				seq = append(seq, -7)
+			}
+			if a&8 == 8 && it.Valid() {
+				// Seek forward to a key of the universe (a target at or ahead of the cursor), then go on
+				for n := 0; it.Valid() && n < 2; n++ {
+					if err := take(); err != nil {
+						return err
+					}
+					it.Next()
+				}
+				if it.Valid() {
+					tgt := e.U.Key(1 + (a>>4)%e.U.N())
+					if opts.Reverse == (string(tgt) <= string(it.Key())) {
+						it.Seek(tgt)
+						seq = append(seq, -8)
+					}
+				}
+			}
+			for ; it.Valid(); it.Next() {
+				if err := take(); err != nil {
+					return err
+				}
 			}
 			e.TxAdd("I %d %v|", a, seq)
 			return nil
@@ -177,7 +211,7 @@ func profLockstep(en *Env) {
 	}
 	limits := []int64{400, 5000, 70000, 1 << 20}
 	for s := 0; s < scripts; s++ {
-		nkeys := 3 + en.R.Intn(5)
+		nkeys := 3 + en.R.Intn(8)
 		vs := h.NewValues()
 		batches := s%3 != 2 // every third script is batch-free (byte comparison)
 		sc := genScript(en, nkeys, vs, steps, batches)
@@ -199,6 +233,15 @@ func profLockstep(en *Env) {
 				sc = append(sc, scriptStep{"Put", k, id, 0})
 			}
 			sc = append(sc, scriptStep{"Merge", 0, 0, 0}, scriptStep{"Restart", 0, 0, 0}, scriptStep{"Iterate", 0, 0, 0}, scriptStep{"Restart", 0, 0, 0})
+		}
+		// every script ends with all keys live and a set of iteration patterns (plain, Rewind after a few steps,
+		// forward Seek, both directions): iteration order must not depend on index type or shard count
+		for k := 1; k <= nkeys; k++ {
+			id, _ := vs.New(5 + en.R.Intn(40))
+			sc = append(sc, scriptStep{"Put", k, id, 0})
+		}
+		for _, a := range []int{0, 1, 4, 5, 8 + 16*en.R.Intn(8), 9 + 16*en.R.Intn(8), 12 + 16*en.R.Intn(8), 13 + 16*en.R.Intn(8)} {
+			sc = append(sc, scriptStep{"Iterate", 0, 0, a})
 		}
 		var cfgs []h.Cfg
 		if en.Thorough() {
